@@ -9,6 +9,7 @@ import (
 	"runtime/debug"
 	"sort"
 	"strings"
+	"time"
 )
 
 // Status of an obligation.
@@ -176,6 +177,7 @@ func runProperty(P *Program, prop, tier string, known *knownFile) *result {
 			continue
 		}
 		r := &R{Program: P, rule: ru, tier: tier}
+		tRule := time.Now()
 		func() {
 			defer func() {
 				if e := recover(); e != nil {
@@ -188,6 +190,9 @@ func runProperty(P *Program, prop, tier string, known *knownFile) *result {
 			}()
 			ru.Run(r)
 		}()
+		if os.Getenv("FWD_TIMING") != "" {
+			fmt.Fprintf(os.Stderr, "timing %s %.2fs\n", ru.Name(), time.Since(tRule).Seconds())
+		}
 		st := &ruleStat{Floor: ru.Floor, Decides: ru.Decides}
 		for _, o := range r.obs {
 			st.Instances++
